@@ -131,6 +131,10 @@ func (c03) Generate(seed uint64, i int, tier string) *Scenario {
 				names, kinds, fn = append(names, n), append(kinds, kInt), append(fn, true)
 			}
 		}
+		// a function of the shared module that fails: every thread that calls it
+		// decodes the same (shared) position table for its backtrace
+		failFn := fmt.Sprintf("lib%d_fail", m)
+		units = append(units, fmt.Sprintf("def %s(n):\n    t = [n]\n    t.append(n * 2)\n    return t[n + 7]\n", failFn))
 		units = append(units, fmt.Sprintf("print(\"loading %s\", time.now())\n", name))
 		sc.Mods = append(sc.Mods, Module{Name: name, Units: units})
 		loads = append(loads, LoadSpec{Module: name, Names: names, Kinds: kinds, Fn: fn})
@@ -138,6 +142,16 @@ func (c03) Generate(seed uint64, i int, tier string) *Scenario {
 	opts := GenOpts{D: sc.D, Units: r.Range(6, 16), ErrPermille: r.Pick3(0, 10, 35), Probes: true, JSON: true, Time: true, Loads: loads, MutGlobals: true}
 	g := NewGen(r.Fork(), opts)
 	prog := g.Program()
+	// the shared modules' failing functions are loaded too, but not offered to
+	// the expression generator
+	for m := range loads {
+		old := fmt.Sprintf("load(\"lib%d.star\", ", m)
+		for ui := range prog {
+			if strings.HasPrefix(prog[ui], old) {
+				prog[ui] = strings.Replace(prog[ui], old, old+fmt.Sprintf("\"lib%d_fail\", ", m), 1)
+			}
+		}
+	}
 	// splice hash-table-heavy blocks in
 	nh := r.Range(1, 3)
 	for k := 0; k < nh; k++ {
@@ -167,7 +181,10 @@ func (c03) Generate(seed uint64, i int, tier string) *Scenario {
 		}
 		prog = append(prog, fmt.Sprintf("def typo_site(v):\n    return v.%s\ntypo_result = typo_site(struct(%s=1, %s=\"two\", %s=[3]))\n", typo, fs[0], fs[1], fs[2]))
 	}
-	if r.Chance(1, 4) {
+	if len(loads) > 0 && r.Chance(1, 3) {
+		// end inside a function of a loaded (shared) module
+		prog = append(prog, fmt.Sprintf("es_shared = lib%d_fail(%d)\n", r.Intn(len(loads)), r.Range(0, 3)))
+	} else if r.Chance(1, 4) {
 		// end in an error whose message enumerates names or entries: whatever
 		// order they are reported in must not depend on a Go map or on hashing
 		site := c03errorSites[r.Intn(len(c03errorSites))]
